@@ -264,13 +264,16 @@ CODEC_ASSUME = [
 ]
 
 
+USER_ASSUME = ["user-defined structure types: random types built with reflect.StructOf; their declarations are handed to the extracted models (UserTypes.v: Fields.v's descriptor builder, elaboration, the schema-generic encoder / decoder of Codec.v) - groups u-desc (descriptor, through the VerifStructDesc hook), u-enc, u-dec; descriptor errors are generated in the top structure only (the library finds a bad nested type lazily, the elaborated schema is eager)"]
+
+
 def first_word(s):
     return s.split(" ", 1)[0]
 
 
 def check_C02(ctx):
-    facts, rep, rows, broken = codec_common(ctx, {"enc-wf", "rt"}, 600, 4000)
-    ctx.assumptions += CODEC_ASSUME + ["concurrent encodes are covered by the generated fact gen_pkg_var_writes = [] (no package state is written) and by the history/parallel suite, not by a model of the Go memory model"]
+    facts, rep, rows, broken = codec_common(ctx, {"enc-wf", "rt", "u-enc"}, 600, 4000)
+    ctx.assumptions += CODEC_ASSUME + USER_ASSUME + ["concurrent encodes are covered by the generated fact gen_pkg_var_writes = [] (no package state is written) and by the history/parallel suite, not by a model of the Go memory model"]
     bad = 0
     for g, cmd, impl, model in rows:
         if g.endswith("rt"):
@@ -298,8 +301,8 @@ def check_C02(ctx):
 
 
 def check_C13(ctx):
-    facts, rep, rows, broken = codec_common(ctx, {"enc-any", "enc-shape", "enc-wf", "dec-target"}, 600, 4000)
-    ctx.assumptions += CODEC_ASSUME
+    facts, rep, rows, broken = codec_common(ctx, {"enc-any", "enc-shape", "enc-wf", "dec-target", "u-enc", "u-dec", "u-desc"}, 600, 4000)
+    ctx.assumptions += CODEC_ASSUME + USER_ASSUME
     bad = 0
     for g, cmd, impl, model in rows:
         w = first_word(impl)
@@ -309,9 +312,19 @@ def check_C13(ctx):
                 ctx.violation("panic" if w == "panic" else "wrote", {
                     "what": "Encode/Decode panicked on the value given" if w != "err-wrote" else "a failed Encode wrote bytes to the destination",
                     "case": short(cmd, 3000), "implementation": impl, "model": short(model, 300)})
+        elif g.endswith("u-desc") and impl != model:
+            bad += 1
+            if bad <= 8:
+                ctx.violation("descriptor", {"what": "the descriptor the library derives from a user-defined structure type (which fields, tags, item types, options; or the error for an unknown tag name / unsupported field type) differs from the model of fields.go",
+                                             "case": short(cmd, 3000), "implementation": short(impl, 1500), "model": short(model, 1500)})
+        elif g.endswith(("u-enc", "u-dec")) and first_word(impl) != first_word(model):
+            bad += 1
+            if bad <= 8:
+                ctx.violation("user-type", {"what": "Encode / Decode on a user-defined structure type: error where the model succeeds or the reverse",
+                                            "case": short(cmd, 3000), "implementation": short(impl, 1500), "model": short(model, 1500)})
     if rep:
         for v in rep["violations"]:
-            if v["kind"].startswith("target-") or v["kind"] == "enc-after-failure":
+            if v["kind"].startswith("target-") or v["kind"] == "enc-after-failure" or v["kind"] == "user-schema":
                 ctx.violation("target", v)
         # one Encoder reused across failing and succeeding values; user-defined types with mixed dynamic values (impl-only oracles)
         rc, hrep, out, err = run_harness(["history", "-seed", str(ctx.seed), "-n", "10" if ctx.tier == "quick" else "200"])
@@ -363,8 +376,8 @@ def check_C01(ctx):
 
 
 def check_C04(ctx):
-    facts, rep, rows, broken = codec_common(ctx, {"dec-valid", "dec-mut", "dec-random", "dec-trunc", "dec-noncanon"}, 600, 5000)
-    ctx.assumptions += CODEC_ASSUME
+    facts, rep, rows, broken = codec_common(ctx, {"dec-valid", "dec-mut", "dec-random", "dec-trunc", "dec-noncanon", "u-dec"}, 600, 5000)
+    ctx.assumptions += CODEC_ASSUME + USER_ASSUME
     bad = 0
     for g, cmd, impl, model in rows:
         if impl == model:
@@ -546,7 +559,7 @@ def scripted_rows(ctx, rows, groups, what):
 
 
 def check_C03(ctx):
-    facts, rep, rows, broken = codec_common(ctx, {"dec-valid", "dec-mut", "dec-random", "dec-trunc", "dec-noncanon", "stream", "cdec", "cstream"}, 300, 5000)
+    facts, rep, rows, broken = codec_common(ctx, {"dec-valid", "dec-mut", "dec-random", "dec-trunc", "dec-noncanon", "stream", "cdec", "cstream", "u-dec"}, 300, 5000)
     ctx.assumptions += CODEC_ASSUME + ["delivery: Readers.v models bufio.Reader (Read, ReadByte/fill, deferred error, large-read bypass), io.LimitedReader, io.ReadFull, io.CopyN into bytes.Buffer / Discard over a scripted transport; theorem C03_delivery_independent covers every script; the models are tied to the real objects by driving both with the same scripts (groups cdec, cstream); additionally five fixed deliveries of every mutated input are compared on the implementation alone"]
     scripted_rows(ctx, rows, {"cdec", "cstream"}, "Decode on a scripted transport (read sizes, empty reads, data delivered with the terminal error, I/O error) differs from the reader-object model, which by theorem C03_delivery_independent equals decoding the bytes in memory")
     rows = [r for r in rows if r[0].split(":")[-1] not in ("cdec", "cstream")]
@@ -740,6 +753,23 @@ def tlsarms_extra(ctx, facts):
                 ctx.violation("tls-arms", {"what": "deadlines set on a TLS connection (SetDeadline counts as read+write) differ from the model: a deadline is armed although its timeout is zero, or not re-armed per message",
                                            "case": short(cmd, 600), "implementation_deadline_calls": iarms, "model_arms": marms,
                                            "responses_received": iresp, "responses_expected": mresp})
+
+
+def accept_ids_extra(ctx, facts):
+    """C09: the session ids connections get from the accept loop (theorem C09_session_ids_distinct) vs the ids the real handlers see"""
+    rep, rows = run_suite_with_model(ctx, facts, "accept", ["-len", "4" if ctx.tier == "quick" else "5", "-cap=false"])
+    if rep is None:
+        return
+    ids = lambda line: [t for t in line.split("|")[0].split(",") if t.startswith("serve:")]
+    ctx.cov["accept_sequences_for_session_ids"] = len(rows)
+    ctx.cov["evaluations"] = ctx.cov.get("evaluations", 0) + len(rows)
+    bad = 0
+    for g, cmd, impl, model in rows:
+        if ids(impl) != ids(model):
+            bad += 1
+            if bad <= 3:
+                ctx.violation("session-id", {"what": "the session ids the handlers of the served connections see differ from the accept-loop model (1, 2, 3, ... in accept order, untouched by temporary errors)",
+                                             "case": cmd, "implementation": impl, "model": model})
 
 
 def stall_extra(ctx, facts):
@@ -944,7 +974,7 @@ def check_C12(ctx):
 
 CHECKS = {"C18": check_C18, "C19": check_C19, "C02": check_C02, "C03": check_C03, "C13": check_C13,
           "C07": make_session_check("C07", 400, 3000), "C08": make_session_check("C08", 400, 3000),
-          "C09": make_session_check("C09", 400, 3000), "C10": make_session_check("C10", 400, 3000, stall_extra),
+          "C09": make_session_check("C09", 400, 3000, accept_ids_extra), "C10": make_session_check("C10", 400, 3000, stall_extra),
           "C15": make_session_check("C15", 100, 1500, timing_extra),
           "C17": make_simple_check("C17", "accept", ["-len", "4"], ["-len", "6"],
                                    "behaviour of Serve on this sequence of Accept results differs from the model of the accept loop (sleeps, served connections, result)",
